@@ -366,6 +366,100 @@ def main(ctx):
     ctx.lattice("edge-neighbourhoods", edunits, one, expand=expand_edges,
                 bounds=dict(binsizes=[0.1, 0.3, "1/3", 2.5, 1e-3, 0.7, "1e5/3"], mins=[0.0, -1.0, 0.1, 1000000.1], edges="k = 0..40", neighbourhood="-3..+3 ulps"))
 
+    # companion variables: a Binner (and histogram()) also takes per-datum companions that are NOT part of the bin
+    # question - a second variable y and weights.  Which x are counted, and where, may depend only on x, the bin
+    # specification and the limits: every assignment of companion values (ordinary, zero, negative, nan, +-inf) to the
+    # data, as y / as weights / as both, with and without the per-bin statistics, must leave hist and rev exactly what the
+    # reference gives for x alone (the reference never sees the companions)
+    import warnings as _warnings
+    CX = [0.5, 2.5, 1.0]
+    CY = ["1.0", "nan", "inf", "-inf"]                # y symbols (strings: cases stay plain literals)
+    CW = ["1.0", "2.5", "nan", "inf"]                 # weight symbols
+    CBIN = [("binsize", 1.0), ("binsize", 0.5), ("nbin", 2)]
+    CLIM = [(None, None), (0.0, None), (None, 3.0), (0.0, 3.0), (1.0, 2.5), (0.75, None)]
+    CN = ctx.pick(2, 3)
+
+    def one_companion(case, rec):
+        data, ysym, wsym, bkind, bval, mn, mx, stats, entry = case
+        x = np.array(data, dtype="f8")
+        y = None if ysym is None else np.array([float(s) for s in ysym])
+        w = None if wsym is None else np.array([float(s) for s in wsym])
+        ref = reference(x, bkind, bval, mn, mx)
+        got = {}
+        for eng in (True, False):
+            su.have_chist = eng
+            try:
+                with np.errstate(all="ignore"), _warnings.catch_warnings():
+                    _warnings.simplefilter("ignore")
+                    kw = dict(min=mn, max=mx, rev=True)
+                    kw[bkind] = bval
+                    if entry == "histogram":
+                        r = stat.histogram(x, weights=w, more=stats, **kw)
+                        got[eng] = (np.asarray(r["hist"]), np.asarray(r["rev"]))
+                    else:
+                        b = stat.Binner(x, y, weights=w)
+                        b.dohist(calc_stats=stats, **kw)
+                        got[eng] = (np.asarray(b["hist"]), np.asarray(b["rev"]))
+            except ValueError as e:
+                got[eng] = "ValueError: %s" % e if ref is not None else "ValueError"
+            except Exception as e:
+                got[eng] = "%s: %s" % (type(e).__name__, e)
+            finally:
+                su.have_chist = True
+        for eng in (True, False):
+            nm = "compiled" if eng else "python"
+            g = got[eng]
+            if ref is None:
+                if g != "ValueError":
+                    return rec.fail(case, "%s engine: no datum within [min,max] but got %r" % (nm, g))
+                continue
+            if isinstance(g, str):
+                return rec.fail(case, "%s engine raised %s (x has data within the limits)" % (nm, g))
+            h, rev = g
+            hist, members = ref[0], ref[1]
+            if h.shape != hist.shape or not np.array_equal(h, hist):
+                return rec.fail(case, "%s engine: hist=%r but x alone (companions y=%r weights=%r must not matter) gives %r"
+                                % (nm, h.tolist(), ysym, wsym, hist.tolist()))
+            nb = h.size
+            if rev.size < nb + 1:
+                return rec.fail(case, "%s engine: rev too short: %r" % (nm, rev.tolist()))
+            for i in range(nb):
+                lo, hi = int(rev[i]), int(rev[i + 1])
+                if not (nb + 1 <= lo <= hi <= rev.size) or rev[lo:hi].tolist() != members[i]:
+                    return rec.fail(case, "%s engine: bin %d rev slice differs from members %r (y=%r weights=%r); hist=%r rev=%r"
+                                    % (nm, i, members[i], ysym, wsym, h.tolist(), rev.tolist()))
+        if ref is None:
+            return rec.ok(case, outcome="companion:no-data-in-limits:ValueError", nontrivial=True, calls=2)
+        odd = [s for s in (ysym or ()) + (wsym or ()) if s in ("nan", "inf", "-inf")]
+        oc = "companion:%s%s:%s" % ("y" if ysym else "", "w" if wsym else "", "non-finite" if odd else "finite")
+        if ref[2] < len(data):
+            oc += "+some-not-counted"
+        rec.ok(case, outcome=oc, nontrivial=bool(odd), calls=2)
+
+    def expand_companion(u):
+        kind, n, bkind, bval, mn, mx, stats = u
+        for data in itertools.product(CX, repeat=n):
+            if kind == "y":
+                for ys in itertools.product(CY, repeat=n):
+                    yield (data, ys, None, bkind, bval, mn, mx, stats, "binner")
+            elif kind == "w":
+                for ws in itertools.product(CW, repeat=n):
+                    yield (data, None, ws, bkind, bval, mn, mx, stats, "binner")
+                    yield (data, None, ws, bkind, bval, mn, mx, stats, "histogram")
+            elif kind == "y+unit-w":
+                for ys in itertools.product(CY, repeat=n):
+                    yield (data, ys, ("1.0",) * n, bkind, bval, mn, mx, stats, "binner")
+            else:
+                for ws in itertools.product(CW, repeat=n):
+                    yield (data, tuple("%d.0" % (k + 1) for k in range(n)), ws, bkind, bval, mn, mx, stats, "binner")
+
+    cunits = [(kind, n, bk, bv, mn, mx, stats) for kind in ("y", "w", "y+unit-w", "finite-y+w") for n in range(1, CN + 1)
+              for (bk, bv) in CBIN for (mn, mx) in CLIM for stats in (False, True)]
+    ctx.lattice("companion-variables", cunits, one_companion, expand=expand_companion,
+                bounds=dict(max_len=CN, x_alphabet=CX, y_symbols=CY, weight_symbols=CW, binning=CBIN, limits=CLIM,
+                            companions=["y", "weights", "y + unit weights", "finite y + weights"], calc_stats=[False, True],
+                            engines=["compiled", "python"], entries=["Binner(x,y,weights).dohist", "histogram(weights=)"]))
+
     # long arrays: every 2-symbol pattern of length 12 (thorough) / 8 (quick)
     LL = ctx.pick(8, 12)
     pairs = [(0.0, 1.0), (0.5, 3.7), (-1.0, 0.30000000000000004), (1.0, 1.0)]
